@@ -121,5 +121,5 @@ Emit ==
                     syn |-> {<<t[1], t[2], IF t[3] = <<>> THEN -1 ELSE Flat(t[3], InShape(G))>> : t \in SynMap(G)},
                     pre0data |-> PreDataShape(G, FALSE), pre0shape |-> PreShape(G, FALSE), pre0 |-> PreMap(G, FALSE),
                     pre1data |-> PreDataShape(G, TRUE), pre1shape |-> PreShape(G, TRUE), pre1 |-> PreMap(G, TRUE),
-                    postshape |-> PostShape(G), post |-> PostMap(G)]))
+                    postshape |-> PostShape(G), post |-> PostMap(G), biasdata |-> BiasDataShape(G)]))
 =============================================================================
